@@ -63,6 +63,15 @@ MUTANTS = {
         ('budget_ignored', r'ReceiveChannelUnreliable::new\(channel_config\.channel_id, channel_config\.max_memory_usage_bytes\)', 'ReceiveChannelUnreliable::new(channel_config.channel_id, 0)'),
         ('send_order_wrong_kind', r'channel_send_order\.push\(ChannelOrder::Reliable\(channel_config\.channel_id\)\);', 'channel_send_order.push(ChannelOrder::Unreliable(channel_config.channel_id));'),
     ],
+    'U15': [
+        ('ack_not_recorded', r'self\.add_pending_ack\(packet\.sequence\(\)\);', ''),
+        ('routed_to_fixed_channel', r'self\.receive_reliable_channels\.get_mut\(&channel_id\) else', 'self.receive_reliable_channels.get_mut(&0) else'),
+        ('slice_error_ignored', r'if let Err\(error\) = channel\.process_slice\(slice\) \{\s+self\.disconnect_with_reason\(DisconnectReason::ReceiveChannelError \{ channel_id, error \}\);\s+\}', 'let _ignored = channel.process_slice(slice);'),
+        ('first_message_skipped', r'for \(message_id, message\) in itM: messages', 'for (message_id, message) in itM: messages.into_iter().skip(1)'),
+        ('send_error_ignored', r'if let Err\(error\) = reliable_channel\.send_message\(message\.into\(\)\) \{\s+self\.disconnect_with_reason\(DisconnectReason::SendChannelError \{ channel_id, error \}\);\s+\}', 'let _ignored = reliable_channel.send_message(message.into());'),
+        ('receive_when_disconnected', r'(pub fn receive_message<I: Into<u8>>[\s\S]*?)if self\.is_disconnected\(\) \{', r'\1if false {'),
+        ('undecodable_packet_ignored', r'self\.disconnect_with_reason\(DisconnectReason::PacketDeserialization\(err\)\);', ''),
+    ],
     'U13': [
         ('ack_gap_off_by_one', r'let range_end = \(previous_range_start - gap\) - 2;', 'let range_end = (previous_range_start - gap) - 1;'),
         ('slice_limit_tightened', r'num_slices > 1_000_000 \{(\s+)return Err', r'num_slices > 999_999 {\1return Err'),
